@@ -561,3 +561,147 @@ theorem longOf_setLong_other (s : SymStore) (m m' : Nat) (cs : List Candle) (h :
   rw [List.lookup_cons, h1, lookup_filter_ne _ _ _ h]
 
 end StoreFrame
+
+/-! ### a symbol's part of an iteration leaves the stores of the OTHER symbols (and the configuration) alone -/
+
+namespace StoreFrame
+open Jesse Jesse.Eng Jesse.Gen Jesse.Acc
+
+variable {M : Type}
+
+/-- `e'` differs from `e` at most in the store of symbol `sym` (same number of stores, same configuration) -/
+def OSame (sym : Nat) (e e' : Engine M) : Prop :=
+  e'.stores.length = e.stores.length ∧ e'.cfg = e.cfg ∧ ∀ s, s ≠ sym → storeOf e' s = storeOf e s
+
+theorem OSame.refl (sym : Nat) (e : Engine M) : OSame sym e e := ⟨rfl, rfl, fun _ _ => rfl⟩
+theorem OSame.trans {sym : Nat} {a b c : Engine M} (h1 : OSame sym a b) (h2 : OSame sym b c) : OSame sym a c :=
+  ⟨h2.1.trans h1.1, h2.2.1.trans h1.2.1, fun s hs => (h2.2.2 s hs).trans (h1.2.2 s hs)⟩
+theorem OSame.of_ss {sym : Nat} {e e' : Engine M} (h : SSame e e') : OSame sym e e' :=
+  ⟨by rw [h.1], h.2, fun s _ => by unfold storeOf; rw [h.1]⟩
+
+theorem getD_upd_ne {α} [Inhabited α] (l : List α) (i s : Nat) (f : α → α) (h : s ≠ i) :
+    (Acc.upd l i f).getD s default = l.getD s default := by
+  induction l generalizing i s with
+  | nil => simp [Acc.upd]
+  | cons x xs ih =>
+    cases i with
+    | zero =>
+      cases s with
+      | zero => exact absurd rfl h
+      | succ s => simp [Acc.upd]
+    | succ i =>
+      cases s with
+      | zero => simp [Acc.upd]
+      | succ s =>
+        simp only [Acc.upd, List.getD_cons_succ]
+        exact ih i s (by omega)
+
+theorem addCandle_os (e : Engine M) (sym tf : Nat) (c : Candle) : OSame sym e (addCandle e sym tf c) :=
+  ⟨stores_length_addCandle _ _ _ _, rfl, fun s hs => by unfold addCandle storeOf; exact getD_upd_ne _ _ _ _ hs⟩
+
+theorem fail_os (sym : Nat) (e : Engine M) (k : Err) : OSame sym e (fail e k) := OSame.of_ss (fail_ss e k)
+
+theorem foldl_os {α} (sym : Nat) (g : Engine M → α → Engine M) (hg : ∀ e x, OSame sym e (g e x)) (l : List α) (e : Engine M) :
+    OSame sym e (l.foldl g e) := by
+  induction l generalizing e with
+  | nil => exact OSame.refl _ _
+  | cons x xs ih => exact OSame.trans (hg e x) (ih (g e x))
+
+theorem updatePartialCandle_os (e : Engine M) (sym : Nat) (c : Candle) : OSame sym e (updatePartialCandle e sym c) := by
+  unfold updatePartialCandle
+  refine OSame.trans (addCandle_os e sym 1 c) ?_
+  apply foldl_os
+  intro e' tf
+  dsimp only
+  split
+  · exact addCandle_os _ _ _ _
+  · exact fail_os _ _ _
+
+section os
+variable [Inhabited M] (u : UserStrategy M)
+
+theorem matchLoop_os (fuel : Nat) : ∀ (e : Engine M) (sym : Nat) (cur : Candle) (cands : List Nat)
+    (resel : Engine M → Candle → List Nat) (st : Bool), OSame sym e (matchLoop u fuel e sym cur cands resel st).1 := by
+  induction fuel with
+  | zero => intro e sym cur cands resel st; unfold matchLoop; exact fail_os _ _ _
+  | succ f ih =>
+    intro e sym cur cands resel st
+    unfold matchLoop
+    dsimp only
+    split
+    · exact OSame.refl _ _
+    · split
+      · exact OSame.refl _ _
+      · split
+        · exact fail_os _ _ _
+        · rename_i a b hs
+          refine OSame.trans ?_ (ih _ _ _ _ _ _)
+          refine OSame.trans ?_ (OSame.of_ss (executeOrder_ss u _ _))
+          refine OSame.trans (updatePartialCandle_os e sym a) ?_
+          split
+          · exact OSame.of_ss ⟨rfl, rfl⟩
+          · exact OSame.of_ss ⟨rfl, rfl⟩
+
+theorem checkLiquidation_os (e : Engine M) (sym : Nat) (c : Candle) : OSame sym e (checkLiquidation u e sym c) := by
+  unfold checkLiquidation
+  dsimp only
+  repeat' split
+  all_goals first
+    | exact OSame.refl _ _
+    | (rename_i w' h _ last hl
+       refine OSame.trans ?_ (OSame.of_ss (executeOrder_ss u _ _))
+       refine OSame.trans ?_ (updatePartialCandle_os _ sym last)
+       exact OSame.of_ss ⟨rfl, rfl⟩)
+    | (exact OSame.trans (OSame.of_ss ⟨rfl, rfl⟩) (fail_os _ _ _))
+
+theorem simulateMinute_os (fuel : Nat) (e : Engine M) (sym : Nat) (real : Candle) : OSame sym e (simulateMinute u fuel e sym real) := by
+  unfold simulateMinute
+  dsimp only
+  split
+  · exact OSame.refl _ _
+  · have h := matchLoop_os u fuel e sym real
+      ((fun (e : Engine M) (c : Candle) => if (executingOrders e sym c).length > 1 then sortExecutionOrders e (executingOrders e sym c) [c] else executingOrders e sym c) e real)
+      (fun (e : Engine M) (c : Candle) => if (executingOrders e sym c).length > 1 then sortExecutionOrders e (executingOrders e sym c) [c] else executingOrders e sym c) false
+    revert h
+    generalize matchLoop u fuel e sym real _ _ false = p
+    intro h
+    obtain ⟨e1, c'⟩ := p
+    dsimp only at h ⊢
+    split
+    · exact h
+    · exact OSame.trans h (OSame.trans (OSame.trans (addCandle_os e1 sym 1 real) (OSame.of_ss ⟨rfl, rfl⟩)) (checkLiquidation_os u _ _ _))
+
+theorem symStep_os (fuel i : Nat) (acc : Engine M × List (List Candle)) (sym : Nat) :
+    OSame sym acc.1 (symStep u fuel i acc sym).1 := by
+  unfold symStep
+  dsimp only
+  split
+  · exact OSame.refl _ _
+  · split
+    · exact fail_os _ _ _
+    · rename_i c hc
+      refine OSame.trans (OSame.trans (addCandle_os acc.1 sym 1 c) (simulateMinute_os u fuel (addCandle acc.1 sym 1 c) sym c)) ?_
+      apply foldl_os
+      intro e tf
+      try dsimp only
+      split
+      · split
+        · exact addCandle_os _ _ _ _
+        · exact fail_os _ _ _
+      · exact OSame.refl _ _
+
+/-- the symbol's part of an iteration rewrites only its own input array -/
+theorem symStep_inputs (fuel i : Nat) (acc : Engine M × List (List Candle)) (sym s : Nat) (hs : s ≠ sym) :
+    (symStep u fuel i acc sym).2.getD s [] = acc.2.getD s [] ∧ (symStep u fuel i acc sym).2.length = acc.2.length := by
+  unfold symStep
+  dsimp only
+  split
+  · exact ⟨rfl, rfl⟩
+  · split
+    · exact ⟨rfl, rfl⟩
+    · refine ⟨?_, by simp⟩
+      rw [List.getD_eq_getElem?_getD, List.getElem?_set_ne (by omega), ← List.getD_eq_getElem?_getD]
+
+end os
+
+end StoreFrame
